@@ -48,7 +48,7 @@ def gen(tier, seed):
     add("environments", "c20-environments", "environments_rejected(k)", ["pre: 0 <= k <= 3"], "empty environment list, the reserved name 'default' and non-string names are refused", "k: int")
     for kind, form in (("grid", "index"), ("grid", "tuple"), ("grid", "object"), ("graph", "index")):
         add("pos_%s_%s" % (kind, form), "c20-position", "position_rejected(%r, %r, i, x, y, z)" % (kind, form),
-            ["pre: -3 <= i <= 6 and -2 <= x <= 3 and -2 <= y <= 2 and -2 <= z <= 2" if form != "index" else "pre: -8 <= i <= 12 and x == 0 and y == 0 and z == 0"],
+            ["pre: i == 0 and -2 <= x <= 4 and -2 <= y <= 3 and -2 <= z <= 3" if form != "index" else "pre: -8 <= i <= 14 and x == 0 and y == 0 and z == 0"],
             "positions outside the space (%s, %s form) raise in every accessor of RDSystem / space / kinetics and leave state and chemostats unchanged" % (kind, form), "i: int, x: int, y: int, z: int",
             viol="an out-of-range position is accepted by an accessor or modifies the state")
     for kind in ("index", "label", "object"):
